@@ -132,7 +132,11 @@ fn passes_inner(prop: &str, tier: Tier) -> Vec<Bounds> {
                     bounds(3, 2, 1, 1, vec![S(1, 1), S(4, 4), S(0, 4), S(3, 1), Shape { size: 2, align: 2, uninit: true }]),
                     bounds(2, 2, 2, 1, shapes_gen()),
                 ],
-                ("C13", false) => vec![bounds(3, 3, 1, 1, shapes_gen()), bounds(4, 2, 1, 1, shapes_gen()), bounds(2, 3, 2, 2, shapes_gen())],
+                ("C13", false) => vec![
+                    bounds(3, 3, 1, 1, shapes_gen()),
+                    bounds(4, 2, 1, 1, shapes_gen()),
+                    bounds(2, 3, 2, 2, shapes_gen()),
+                ],
                 // second pass: two removals in one step, zero-size data sharing an offset (several removed
                 // data at one offset: an ordering of the removed data by offset alone is not total)
                 (_, true) => vec![bounds(3, 2, 1, 1, six), bounds(2, 2, 2, 2, vec![S(0, 1), S(4, 4), S(0, 4), S(1, 1)])],
@@ -143,6 +147,14 @@ fn passes_inner(prop: &str, tier: Tier) -> Vec<Bounds> {
                 b.with_ranks = true;
                 // determinism does not depend on when a ghost goes away: C19 keeps the plain ghost only
                 b.ghosts_late = prop != "C19";
+            }
+            if prop == "C13" {
+                // a size that is not a multiple of the alignment (only an override can record it)
+                // followed in memory by less aligned data; no cancelled additions in this pass
+                let odd = vec![S(1, 1), S(4, 4), S(6, 4), S(2, 2)];
+                let mut b = if q { narrow(vec![3, 2], vec![0, 2], odd) } else { narrow(vec![3, 3, 1], vec![0, 2, 1], odd) };
+                b.with_ranks = true;
+                v.push(b);
             }
             v
         }
